@@ -30,7 +30,10 @@ func ensureSandbox() {
 	if sandbox != "" {
 		return
 	}
-	dir, err := os.MkdirTemp("", "vsim-bodies-")
+	// a name of fixed length: the paths end up in generated files whose sizes are logged
+	dir := filepath.Join(os.TempDir(), fmt.Sprintf("vsim-bodies-%010d", os.Getpid()))
+	os.RemoveAll(dir)
+	err := os.Mkdir(dir, 0o755)
 	if err != nil {
 		fmt.Println("INFRA:", err)
 		os.Exit(2)
